@@ -182,6 +182,10 @@ func c09Judge(r *ev.Result, c c09Case, res *hworld.Response, notices []opshell.C
 			v("unset-file-handler", "the file handler ran although no files are served")
 		}
 	case "file" == c.Config:
+		/* A plain path with a query: the single file, whatever the query. */
+		if (strings.HasPrefix(c.Target, "/a?") || strings.HasPrefix(c.Target, "/no-such-file?")) && len(c.Target) < 64 && (200 != res.Status || "IN:flat:a\n" != string(body) || 1 != nFile) {
+			v("single-file-not-returned", fmt.Sprintf("a non-shell path with the query %q did not get the configured file, reported once", c.Target[strings.Index(c.Target, "?"):]))
+		}
 		if 200 == res.Status && !shell && "IN:flat:a\n" != string(body) {
 			v("single-file-other-body", "a non-shell 200 response is not the configured file")
 		}
@@ -190,6 +194,9 @@ func c09Judge(r *ev.Result, c c09Case, res *hworld.Response, notices []opshell.C
 			v("single-file-not-returned", "the file handler ran but the answer is not the configured file")
 		}
 	default:
+		if strings.HasPrefix(c.Target, "/a?") && len(c.Target) < 64 && strings.HasSuffix(c.Config, ":flat") && (200 != res.Status || 1 != nFile || !hasFile) {
+			v("file-not-served", fmt.Sprintf("the file /a of the tree, requested with the query %q, was not served and reported once", c.Target[2:]))
+		}
 		if 200 == res.Status && !shell {
 			if 1 != nFile {
 				v("file-not-reported", fmt.Sprintf("a file response with %d 'File requested' notices", nFile))
@@ -288,6 +295,11 @@ func c09(r *ev.Result, tier string) {
 			path, and a short path with a long query. */
 			long := strings.Repeat("long-segment-", 1000)
 			ts = append(append([]string{}, ts...), "/"+long, "/a?q="+long, "/sub/"+long+"/../../a")
+			/* Query parameters with names a server might come to give a
+			meaning to: a file request all the same. */
+			for _, q := range []string{"t=1", "token=x", "id=1", "key=v", "a=b&t=z", "%74=%31", "auth=1", "dl=1", "raw", "download=1"} {
+				ts = append(ts, "/a?"+q, "/no-such-file?"+q)
+			}
 		}
 		for _, t := range ts {
 			method := "GET"
